@@ -117,6 +117,13 @@ CLAIMED.update({
    note="coalescer and write-back value correctness, scoreboard hazards, caches and DRAM are not decided; three defects (s_load_dwordx16, flat_load_sbyte write-back, V5 packed ids in timing) repaired by fix: commits; two SGPR-reservation divergences recorded as known findings"),
 })
 
+CLAIMED.update({
+ "C08": dict(
+   text="Structural clauses of the grid partition: one ceil(grid/wg) formula (same dimension, recognised form) at every counting site of the grid builder, the driver and both register initialisations; partial sizes min(grid - id*wg, wg) per dimension, x-fastest enumeration, spawning bounded by the current sizes; wavefront membership keyed on in-group id / 64 with lane bit id % 64 and first flat id quotient*64, the in-group id formula and its inverse decomposition in both modes' lane-id initialisation; the multi-GPU filter's flattening and half-open cumulative ranges; plus R02.2 (identical initial registers in both modes). That every work-item is executed exactly once for all sizes is arithmetic and is not proved.",
+   ref="4/C08", technique="value provenance of the partition formulas compared across sites (SIBLINGS), dominance cuts (GUARD), syntactic loop-bound rules",
+   note="only the shapes of the formulas and their mutual consistency are decided; one defect (wavefront formation in partial non-power-of-two work-groups) found and repaired by a fix: commit, after which rule R08.3 was added as its structural necessary condition"),
+})
+
 PENDING = {}
 
 NOT_APPLICABLE = {
